@@ -62,6 +62,40 @@ func (c *Ctx) ListsAsGiven(prop string) {
 				case *ssa.Const, *ssa.MakeSlice, *ssa.MakeMap:
 					// a default (empty) value
 					okVal = true
+				case *ssa.Call:
+					// a defensive copy of the whole argument: append(<empty>, arg...) or slices.Clone(arg) / maps.Clone(arg)
+					isArg := func(a ssa.Value) bool {
+						switch y := a.(type) {
+						case *ssa.Parameter, *ssa.FreeVar:
+							return true
+						case *ssa.UnOp:
+							if _, isFV := y.X.(*ssa.FreeVar); isFV {
+								return true
+							}
+							if inner, ok := an.ResolveCell(y.X); ok {
+								_, isP := inner.(*ssa.Parameter)
+								return isP
+							}
+						}
+						return false
+					}
+					if isBuiltin(x, "append") && len(x.Call.Args) == 2 && isArg(x.Call.Args[1]) {
+						switch e := x.Call.Args[0].(type) {
+						case *ssa.Const:
+							okVal = e.Value == nil
+						case *ssa.MakeSlice:
+							okVal = an.IsConstInt(e.Len, 0)
+						case *ssa.Slice:
+							if al, isLit := e.X.(*ssa.Alloc); isLit {
+								if arr, isArr := derefT(al.Type()).Underlying().(*types.Array); isArr && arr.Len() == 0 {
+									okVal = true
+								}
+							}
+						}
+					}
+					if f := x.Call.StaticCallee(); f != nil && f.Pkg != nil && (f.Pkg.Pkg.Path() == "slices" || f.Pkg.Pkg.Path() == "maps") && f.Name() == "Clone" && len(x.Call.Args) == 1 && isArg(x.Call.Args[0]) {
+						okVal = true
+					}
 				case *ssa.Slice:
 					// a literal default: the whole of a local array
 					if _, isLit := x.X.(*ssa.Alloc); isLit && x.Low == nil && x.High == nil {
